@@ -5,7 +5,7 @@ PROP = {
     "bin": "c06",
     "coq_targets": ["theories/Lift/C06Check"],
     "n": {"quick": int(_os.environ.get("C06_N", "640")), "thorough": 24000},   # C06_N: smaller runs for sensitivity experiments
-    "theorems": ["lang_bisim_sound", "bisim_from_sound", "lang_prefix_closed", "lang_eq_feasible", "lang_bisim_exec", "lang_bisim_exec_sem", "recover_names_ok", "lang_eq_exec_sem", "sem_pexec_link", "recover_once", "recover_struct_once"],
+    "theorems": ["lang_bisim_sound", "bisim_from_sound", "lang_prefix_closed", "lang_eq_feasible", "lang_bisim_exec", "lang_bisim_exec_sem", "recover_names_ok", "lang_eq_exec_sem", "sem_pexec_link", "recover_once", "recover_struct_once", "merge_flang", "recover_full_lang"],
     "rule": "10 + 8 hand-written regression programs, then random machine-code programs, one xoshiro256** stream per (seed,index): "
             "toy fixed-width ISA (add / three-block conditional add / jmp / jcc with both successor orders / halt / indirect jump) of "
             "1-70 instructions (60% 17-40) at every alignment of the base modulo 64, control-transfer density 3/8/20/40%, "
@@ -22,9 +22,7 @@ PROP = {
                     "that share a target are one edge guarded by the disjunction of their guards"],
     "partial": ["recover_struct: the clause 'entry block starts at the function address' is not proved for the model (names clause and "
                 "exactly-once/exactly-reachable clause are: recover_names_ok, recover_struct_once)",
-                "recover_lang (lang (recover tb fa []) = lang G_prog under tb_spec) is not proved: decided per output by the verified validator",
-                "composition with C15's merge_lang is by construction + exact tie (recover_full runs C15's s_merge and equals the Rust "
-                "output structurally on every case), not by a theorem: the two language definitions differ (addresses, unguarded edges)"],
+                "recover_lang (lang (recover tb fa []) = lang G_prog under tb_spec) is not proved: decided per output by the verified validator"],
     "level_text": "Verified validator: every function returned by the real translate_function_extended is checked in the Coq kernel against "
                   "the reference graph assembled (in Coq) from the program read one instruction at a time: language bisimulation "
                   "(lang_bisim, proved sound for all graphs), multiset of (address, operation) items, entry/edge/exit naming, and equal "
